@@ -33,6 +33,7 @@ type Framing struct {
 	Fault      string // "" | eof | err | timeout   (write side: err | timeout)
 	FaultSide  string // read | write  (server only; client-read is read, client-write is write)
 	FaultAt    int
+	BufLen     int // client-read, API Read: length of the caller's buffer (0 = 65535); every buffer >= the message must get it
 }
 
 var boundarySizes = []int{12, 13, 14, 18, 19, 31, 32, 33, 254, 255, 256, 257, 511, 512, 513, 4095, 4096, 4097, 16383, 16384, 16385, 32767, 32768, 65533, 65534, 65535}
@@ -121,6 +122,14 @@ func genFramingDir(dir string) func(t *rapid.T) Framing {
 		switch dir {
 		case "client-read":
 			c.API = rapid.SampledFrom([]string{"ReadMsg", "ReadMsg", "ReadMsgHeader", "ReadMsgHeaderHdr", "Read", "Read", "ReadShortBuf"}).Draw(t, "api")
+			if c.API == "Read" && rapid.IntRange(0, 2).Draw(t, "bufKind") > 0 {
+				// buffer lengths around the largest message and around / beyond the 16-bit range
+				big := 0
+				for _, s := range c.Sizes {
+					big = max(big, s)
+				}
+				c.BufLen = rapid.SampledFrom([]int{big, big + 1, 65534, 65535, 65536, 65537, 65548, 70000, 131071, 131072, 131072 + 12, 1 << 20}).Draw(t, "bufLen")
+			}
 			if rapid.IntRange(0, 9).Draw(t, "faulty") < 4 {
 				c.Fault = rapid.SampledFrom([]string{"eof", "eof", "err", "timeout"}).Draw(t, "fault")
 				c.FaultAt = genFaultAt(t, c.Sizes)
@@ -238,6 +247,11 @@ func (c *Framing) classes() (cl []string, nontrivial bool) {
 	if len(c.Sizes) > 1 {
 		cl = append(cl, "back-to-back")
 	}
+	if c.BufLen >= 65536 {
+		cl = append(cl, "read-buffer>=65536")
+	} else if c.BufLen > 0 {
+		cl = append(cl, "read-buffer<65536")
+	}
 	return cl, nontrivial
 }
 
@@ -311,7 +325,11 @@ func checkClientRead(c Framing) error {
 			}
 			fallthrough
 		default:
-			buf := make([]byte, 65535)
+			bl := c.BufLen
+			if bl <= 0 || c.API != "Read" {
+				bl = 65535
+			}
+			buf := make([]byte, bl)
 			n, e := co.Read(buf)
 			if e != nil {
 				return nil, nil, e
@@ -331,6 +349,12 @@ func checkClientRead(c Framing) error {
 			}
 			return nil // the stream position is undefined after this error
 		}
+		if c.API == "Read" && c.BufLen > 0 && c.BufLen < len(body) && wantOK {
+			if err == nil {
+				return fmt.Errorf("message %d (%d octets) read into a %d-octet buffer: no error, %d octets returned", i, len(body), c.BufLen, len(got))
+			}
+			return nil // too small a buffer: an error; the stream position is undefined afterwards
+		}
 		if !wantOK {
 			if err == nil {
 				return fmt.Errorf("message %d (stream octets %d..%d) cut by %s at octet %d: %s returned no error (%s)", i, pos, end, c.Fault, c.FaultAt, c.API, describe(got, m))
@@ -338,7 +362,7 @@ func checkClientRead(c Framing) error {
 			return nil
 		}
 		if err != nil {
-			return fmt.Errorf("message %d (%d octets, stream octets %d..%d, fault %q at %d): %s failed: %v", i, len(body), pos, end, c.Fault, c.FaultAt, c.API, err)
+			return fmt.Errorf("message %d (%d octets, stream octets %d..%d, fault %q at %d, caller buffer %d octets): %s failed: %v", i, len(body), pos, end, c.Fault, c.FaultAt, c.BufLen, c.API, err)
 		}
 		if c.API == "ReadMsg" {
 			if e := sameAsBuilt(m, msgID(i), len(body), c.Seeds[i]); e != nil {
